@@ -317,6 +317,13 @@ func (tt *TermTable) Eq(a, b *Term) *Term {
 			return tFalse
 		}
 	}
+	// eq(ite tree with constant leaves, k): push the comparison to the leaves
+	if b.op == OConst && a.op == OIte && b.cb == nil {
+		budget := 2048
+		if r := tt.eqIteConst(a, b, &budget, map[*Term]*Term{}); r != nil {
+			return r
+		}
+	}
 	// eq(zext(x), k)
 	if b.op == OConst && a.op == OZext && b.cb == nil {
 		if b.c > mask(a.a.w) {
@@ -932,4 +939,38 @@ func (t *Term) Vars() []*Term {
 	}
 	t.vs, t.vsDone = acc, true
 	return acc
+}
+
+// eqIteConst returns eq(t, k) for an ite tree t whose leaves are all
+// constants (nil if t is not of that shape or is too large).
+func (tt *TermTable) eqIteConst(t, k *Term, budget *int, memo map[*Term]*Term) *Term {
+	if t.op == OConst {
+		if t.cb != nil {
+			return nil
+		}
+		return mkBool(t.c == k.c)
+	}
+	if t.op != OIte {
+		return nil
+	}
+	if r, ok := memo[t]; ok {
+		return r
+	}
+	*budget--
+	if *budget < 0 {
+		return nil
+	}
+	a := tt.eqIteConst(t.b, k, budget, memo)
+	if a == nil {
+		memo[t] = nil
+		return nil
+	}
+	b := tt.eqIteConst(t.d, k, budget, memo)
+	if b == nil {
+		memo[t] = nil
+		return nil
+	}
+	r := tt.Ite(t.a, a, b)
+	memo[t] = r
+	return r
 }
